@@ -211,6 +211,9 @@ func runFrontend(in, out string, _ []string) error {
 		if err := json.Unmarshal(line, &sc); err != nil {
 			return fmt.Errorf("bad scenario: %v", err)
 		}
+		// the library can end the process (logrus.Fatal, stack exhaustion): say which program is running
+		w.Emit(tr.Ev{"t": sc.ID, "e": "start"})
+		w.Flush()
 		w.EmitAll(runOneFrontend(sc))
 		return nil
 	})
